@@ -142,6 +142,14 @@ def _structure_job(args):
                 Dn = G.copy()
                 Dn[1:, 0] *= 2.0 ** e_
                 measure(rec, "underflow-subcolumn", {"A": "G with column 0 below the diagonal scaled by 2^%d" % e_, "n": n}, Dn)
+            # only the PIVOT entry of the sub-column (the one the reflector maps the column onto) is that small while
+            # the rest of the column is O(1): its modulus must not be formed from squared components either
+            for e_ in (-505, -512, -520, -530, -536, -540, -545, -1074):
+                Dp = G.copy()
+                Dp[1, 0] *= 2.0 ** e_
+                if n >= 4 and e_ % 2:
+                    Dp[2, 1] *= 2.0 ** e_
+                measure(rec, "underflow-pivot", {"A": "G with entry (1,0) scaled by 2^%d" % e_, "n": n}, Dp)
             # pure imaginary / single axis sub-column
             Pm = G.copy()
             Pm[1:, 0, 0] = 0
